@@ -32,12 +32,19 @@ fn main() {
         let sc: Value = serde_json::from_str(&line).expect("scenario json");
         let id = sc.get("id").cloned().unwrap_or(json!(0));
         let prog = Program::from_json(&sc).expect("program");
+        // optional: a different program for the proving instance (compile `ops`,
+        // prove `prove_ops`): adversarial instances composed from seams
+        let prove_prog = match sc.get("prove_ops") {
+            Some(p) if p.is_array() => Some(Program { ops: p.as_array().unwrap().clone() }),
+            _ => None,
+        };
         let cap = sc.get("cap").and_then(|c| c.as_u64()).unwrap_or(1 << 12) as usize;
 
         // honest composition: outcome of circuit() and the returned witnesses
         let mut c = Composer::initialized();
         let mut last: Option<CallRecord> = None;
-        let composed = guarded(|| run_program_cb(&prog, &mut c, &mut |r, _| last = Some(r.clone())));
+        let shown = prove_prog.as_ref().unwrap_or(&prog);
+        let composed = guarded(|| run_program_cb(shown, &mut c, &mut |r, _| last = Some(r.clone())));
         let snap = c.verif_snapshot();
         let ret: Vec<Value> = match &last {
             Some(r) if r.outcome == "ok" => r.ret.iter().map(|w| fe_to_json(&snap.witnesses[*w])).collect(),
@@ -61,8 +68,9 @@ fn main() {
                     let mut rng = ScriptRng::seeded(0xABCD ^ cap as u64);
                     PublicParameters::setup(cap, &mut rng).expect("setup")
                 });
-                let circ = ScriptedCircuit::new(prog.clone());
-                let compiled = guarded(|| Compiler::compile_with_circuit(pp, b"gadget", &circ));
+                let circ_c = ScriptedCircuit::new(prog.clone());
+                let circ = ScriptedCircuit::new(shown.clone());
+                let compiled = guarded(|| Compiler::compile_with_circuit(pp, b"gadget", &circ_c));
                 match compiled {
                     Ok(Ok((prover, verifier))) => {
                         let mut rng = ScriptRng::seeded(seed);
